@@ -6,7 +6,8 @@ declaration is begun at most once, is a marker exactly while it is being built, 
 the store first, every order ends with everything built (confluence; a circularity is reported iff
 the dependency graph is cyclic) and the build terminates (liveness under weak fairness).
 B: the same abstract schema is written out under the orders TLC enumerates, split over 1-3 included
-documents with different location spellings; the real global set and the verdicts of probe
+documents with different location spellings, with two imported namespaces whose imports are written in
+either order, with or without locations (or handed over as a list of documents in either order); the real global set and the verdicts of probe
 instances must be the spec's; copy(), pickle and a second build must not change them; the corpus
 schemas of tests/test_cases are permuted at text level and compared with the original arrangement.
 C: build.begin/end/circular hook events of every build are validated against Trace_Build.tla.
@@ -34,7 +35,8 @@ DECL = {
     "tD": ('<xs:complexType name="tD"><xs:complexContent><xs:extension base="t:tB"><xs:sequence>'
            '<xs:element name="y" type="xs:int"/></xs:sequence><xs:attributeGroup ref="t:ag"/>'
            '</xs:extension></xs:complexContent></xs:complexType>'),
-    "ag": '<xs:attributeGroup name="ag"><xs:attribute name="p" type="xs:int"/></xs:attributeGroup>',
+    "ag": ('<xs:attributeGroup name="ag"><xs:attribute name="p" type="xs:int"/><xs:attribute ref="v:a"/>'
+           '</xs:attributeGroup>'),
     "g": '<xs:group name="g"><xs:sequence><xs:element ref="t:e"/></xs:sequence></xs:group>',
     "e": '<xs:element name="e" type="t:tD" block="restriction"/>',
     "m": '<xs:element name="m" type="t:tD" substitutionGroup="t:e"/>',
@@ -54,8 +56,16 @@ PROBES = [
     ('<t:r xmlns:t="urn:T"><t:e><t:x>a</t:x></t:e></t:r>', False),
     ('<t:r xmlns:t="urn:T"><t:e p="x"><t:x>a</t:x><t:y>1</t:y></t:e></t:r>', False),
     ('<t:e xmlns:t="urn:T"><t:x>a</t:x><t:y>z</t:y></t:e>', False),
+    ('<t:e xmlns:t="urn:T" xmlns:v="urn:V" v:a="5"><t:x>a</t:x><t:y>1</t:y></t:e>', True),
+    ('<t:e xmlns:t="urn:T" xmlns:v="urn:V" v:a="500"><t:x>a</t:x><t:y>1</t:y></t:e>', False),
 ]
-HEAD = f'<xs:schema xmlns:xs="{cm.XS}" targetNamespace="{TNS}" xmlns:t="{TNS}" elementFormDefault="qualified">'
+HEAD = (f'<xs:schema xmlns:xs="{cm.XS}" targetNamespace="{TNS}" xmlns:t="{TNS}" xmlns:u="urn:U" xmlns:v="urn:V" '
+        f'elementFormDefault="qualified">')
+# two further namespaces: V's attribute a is typed by U's simple type (V imports U, T imports both)
+U_XSD = (f'<xs:schema xmlns:xs="{cm.XS}" targetNamespace="urn:U"><xs:simpleType name="uT"><xs:restriction '
+         'base="xs:int"><xs:maxInclusive value="100"/></xs:restriction></xs:simpleType></xs:schema>')
+V_XSD = (f'<xs:schema xmlns:xs="{cm.XS}" targetNamespace="urn:V" xmlns:u="urn:U">%s'
+         '<xs:attribute name="a" type="u:uT"/></xs:schema>')
 
 
 def globals_of(schema, ns=None):
@@ -137,9 +147,30 @@ def arrangement_case(job):
             incs.reverse()
         if ndocs > 1 and idx % 5 == 0:
             incs.append(incs[0].replace('schemaLocation="', 'schemaLocation="./'))      # same file twice
+        # the imported namespaces: order of the imports, with or without locations, or no location at all and
+        # the documents handed over as a list (in either order)
+        listed = (idx // 2) % 3 == 0
+        with open(os.path.join(d, "u.xsd"), "w") as f:
+            f.write(U_XSD)
+        with open(os.path.join(d, "v.xsd"), "w") as f:
+            f.write(V_XSD % ('<xs:import namespace="urn:U"/>' if (listed or idx % 4 < 2) else
+                             f'<xs:import namespace="urn:U" schemaLocation="{spelling(idx % 6, d, "u.xsd")}"/>'))
+        imps = [f'<xs:import namespace="urn:{n.upper()}"' +
+                ("" if listed else f' schemaLocation="{spelling((idx + k) % 6, d, n + ".xsd")}"') + "/>"
+                for k, n in enumerate(("u", "v"))]
+        if (idx // 3) % 2:
+            imps.reverse()
+        head = imps + incs if idx % 7 < 4 else incs + imps
         main = os.path.join(d, "main.xsd")
         with open(main, "w") as f:
-            f.write(HEAD + "".join(incs) + "".join(DECL[n] for n in order if assign[n] == 0) + "</xs:schema>")
+            f.write(HEAD + "".join(head) + "".join(DECL[n] for n in order if assign[n] == 0) + "</xs:schema>")
+        src = main
+        if listed:
+            others = [os.path.join(d, "u.xsd"), os.path.join(d, "v.xsd")]
+            if idx % 4 >= 2:
+                others.reverse()
+            src = [main] + others
+        main = src
         cls = cm.schema_class(ver)
         ev = vt.start()
         try:
@@ -165,8 +196,9 @@ def arrangement_case(job):
             s3.maps.clear()
             s3.build()
             variants.append(("cleared and rebuilt", s3))
-            with open(main) as fh:
-                variants.append(("from text with base_url", cls(fh.read(), base_url=d)))
+            if not listed:
+                with open(main) as fh:
+                    variants.append(("from text with base_url", cls(fh.read(), base_url=d)))
         except Exception as e:      # noqa: BLE001
             out.append((f"copy/pickle/rebuild raised {type(e).__name__}: {str(e)[:200]}", None))
         fp0 = fingerprint(s, TNS)
